@@ -321,7 +321,9 @@ def decode(sx, case):
         return {"model": model, "spec": spec, "in_domain": True, "model_unsupported": unsupported or (comp[0] == "err" and comp[1] == "fuel")}
     if k == "ptr":
         d = C04.decode(sx, case)
-        return {"model": {"ptr": d["model"]}, "spec": {"ptr": "ok-or-family"}, "in_domain": True, "model_unsupported": d.get("skip", False)}
+        # (`#` followed by more digits than int() converts: a type error there, an index error in the unbounded model)
+        return {"model": {"ptr": d["model"]}, "spec": {"ptr": "ok-or-family"}, "in_domain": True,
+                "model_unsupported": d.get("skip", False) or bool(re.search(r"#[0-9]{4301}", case["text"]))}
     if k == "rel":
         d = C16.decode(sx, case)
         # (an origin / offset longer than the interpreter's int() limit is a syntax error there; the model's integers are unbounded)
@@ -329,7 +331,8 @@ def decode(sx, case):
                 "model_unsupported": d.get("skip", False) or bool(re.search(r"[0-9]{4301}", case["rel"]))}
     if k == "patch":
         d = C05.decode(sx, case)
-        return {"model": {"patch": d["model"]}, "spec": {"patch": "ok-or-family"}, "in_domain": True, "model_unsupported": d.get("skip", False)}
+        return {"model": {"patch": d["model"]}, "spec": {"patch": "ok-or-family"}, "in_domain": True,
+                "model_unsupported": d.get("skip", False) or bool(re.search(r"#[0-9]{4301}", json.dumps(case["ops"])))}
     return {"model": {}, "spec": {"badpatch": "ok-or-family"}, "in_domain": True, "model_unsupported": True}
 
 
